@@ -18,13 +18,20 @@ Definition str_lt (a b : string) : Prop := String.ltb a b = true.
 (* "columns are sorted" *)
 Definition alphabetical (out : list string) : Prop := StronglySorted str_le out.
 
-(* "columns follow the request": out is the concatenation, in the order of [req], of one block per requested name,
-   the block holding exactly that feature's available columns, sorted, each once *)
-Definition block_of (cols : list string) (f : string) (b : list string) : Prop :=
-  StronglySorted str_lt b /\ forall c, In c b <-> wanted cols [f] c.
+(* "columns follow the request": out is the concatenation, in the order of [req], of one block per requested name; the
+   block holds that feature's available columns that no EARLIER requested name owns, sorted, each once (so a column owned
+   by several requested names stands where the first of them stands, and nowhere else) *)
+Definition block_of (cols earlier : list string) (f : string) (b : list string) : Prop :=
+  StronglySorted str_lt b /\
+  forall c, In c b <-> wanted cols [f] c /\ ~ (exists g, In g earlier /\ owner g c).
 
-Definition follows_request (cols req out : list string) : Prop :=
-  exists blocks, out = List.concat blocks /\ Forall2 (block_of cols) req blocks.
+Inductive follows_from (cols : list string) : list string -> list string -> list string -> Prop :=
+| ff_nil : forall earlier, follows_from cols earlier [] []
+| ff_cons : forall earlier f req b out,
+    block_of cols earlier f b -> follows_from cols (earlier ++ [f]) req out ->
+    follows_from cols earlier (f :: req) (b ++ out).
+
+Definition follows_request (cols req out : list string) : Prop := follows_from cols [] req out.
 
 (* a name contains no separator *)
 Fixpoint no_tilde (s : string) : Prop :=
